@@ -208,6 +208,161 @@ def explore(fn, assumptions=(), **kw) -> list[Path]:
 
 
 # ---------------------------------------------------------------------------------------
+# exact concrete rationals: a Fraction that never decays to float when mixed with floats
+
+
+def _to_frac(o):
+    if isinstance(o, Fraction):
+        return o
+    if isinstance(o, (bool, _np.bool_)):
+        return Fraction(int(o))
+    if isinstance(o, (int, _np.integer)):
+        return Fraction(int(o))
+    if isinstance(o, (float, _np.floating)):
+        f = float(o)
+        if math.isnan(f) or math.isinf(f):
+            return None
+        return Fraction(f)
+    return None
+
+
+class Q(Fraction):
+    """Fraction whose arithmetic with python/numpy floats stays exact (float -> exact rational)."""
+
+    __array_ufunc__ = None
+    __array_priority__ = 900
+
+    def __new__(cls, num=0, den=None):
+        if den is None and isinstance(num, (float, _np.floating)):
+            return super().__new__(cls, Fraction(float(num)))
+        return super().__new__(cls, num, den) if den is not None else super().__new__(cls, num)
+
+    def _w(self, r):
+        if isinstance(r, Fraction) and not isinstance(r, Q):
+            return Q(r)
+        return r
+
+    def _op(self, o, f, reflected=False):
+        if isinstance(o, (Sym, SymBool, SymComplex)) or isinstance(o, _np.ndarray):
+            return NotImplemented
+        if isinstance(o, complex):
+            return NotImplemented
+        fo = _to_frac(o)
+        if fo is None:
+            return NotImplemented
+        a, b = (fo, Fraction(self)) if reflected else (Fraction(self), fo)
+        r = f(a, b)
+        return Q(r) if isinstance(r, Fraction) else r
+
+    def __add__(self, o):
+        return self._op(o, lambda a, b: a + b)
+
+    def __radd__(self, o):
+        return self._op(o, lambda a, b: a + b, True)
+
+    def __sub__(self, o):
+        return self._op(o, lambda a, b: a - b)
+
+    def __rsub__(self, o):
+        return self._op(o, lambda a, b: a - b, True)
+
+    def __mul__(self, o):
+        return self._op(o, lambda a, b: a * b)
+
+    def __rmul__(self, o):
+        return self._op(o, lambda a, b: a * b, True)
+
+    def __truediv__(self, o):
+        return self._op(o, lambda a, b: a / b)
+
+    def __rtruediv__(self, o):
+        return self._op(o, lambda a, b: a / b, True)
+
+    def __floordiv__(self, o):
+        return self._op(o, lambda a, b: Fraction(a // b))
+
+    def __rfloordiv__(self, o):
+        return self._op(o, lambda a, b: Fraction(a // b), True)
+
+    def __mod__(self, o):
+        return self._op(o, lambda a, b: a % b)
+
+    def __rmod__(self, o):
+        return self._op(o, lambda a, b: a % b, True)
+
+    def __pow__(self, o):
+        fo = _to_frac(o) if not isinstance(o, (Sym, SymBool, SymComplex, _np.ndarray)) else None
+        if fo is not None and fo.denominator == 1:
+            return Q(Fraction(self) ** int(fo))
+        if fo is not None and fo == Fraction(1, 2):
+            r = sym_sqrt(Fraction(self))
+            return Q(r) if isinstance(r, (int, Fraction)) else r
+        return NotImplemented
+
+    def __neg__(self):
+        return Q(-Fraction(self))
+
+    def __pos__(self):
+        return self
+
+    def __abs__(self):
+        return Q(abs(Fraction(self)))
+
+    def __hash__(self):
+        return Fraction.__hash__(self)
+
+    def __eq__(self, o):
+        fo = _to_frac(o) if not isinstance(o, (Sym, SymBool, SymComplex, _np.ndarray)) else None
+        if fo is None:
+            return NotImplemented
+        return Fraction.__eq__(Fraction(self), fo)
+
+    # numpy object loops call these
+    def sqrt(self):
+        r = sym_sqrt(Fraction(self))
+        return Q(r) if isinstance(r, (int, Fraction)) else r
+
+    def conjugate(self):
+        return self
+
+    def floor(self):
+        return Q(math.floor(self))
+
+    def ceil(self):
+        return Q(math.ceil(self))
+
+    def rint(self):
+        return Q(round(Fraction(self)))
+
+    def trunc(self):
+        return Q(math.trunc(self))
+
+    @property
+    def real(self):
+        return self
+
+    @property
+    def imag(self):
+        return 0
+
+    def __repr__(self):
+        return f"{self.numerator}/{self.denominator}" if self.denominator != 1 else str(self.numerator)
+
+
+def exact(x):
+    """python/numpy concrete scalar -> exact python scalar (floats become Q)."""
+    if isinstance(x, _np.generic):
+        x = x.item()
+    if isinstance(x, float):
+        if math.isnan(x) or math.isinf(x):
+            return x
+        return Q(x)
+    if isinstance(x, Fraction) and not isinstance(x, Q):
+        return Q(x)
+    return x
+
+
+# ---------------------------------------------------------------------------------------
 # symbolic scalars
 
 
@@ -814,7 +969,7 @@ def sym_sqrt(x):
         fx = Fraction(x)
         rn, rd = math.isqrt(fx.numerator), math.isqrt(fx.denominator)
         if rn * rn == fx.numerator and rd * rd == fx.denominator:
-            return Fraction(rn, rd)
+            return Q(Fraction(rn, rd))
         x = Sym(lift(fx))
     if isinstance(x, SymBool):
         x = x._num()
@@ -888,6 +1043,8 @@ class _FloatMeta(type):
             return Sym(_real(x._num().e))
         if isinstance(x, _np.ndarray) and x.dtype == object and x.size == 1:
             return cls(x.reshape(-1)[0])
+        if getattr(x, "_symx_passthrough", False):
+            return x
         return float(x)
 
 
